@@ -79,13 +79,13 @@ pub fn create_dir_all<P: AsRef<Path>>(_p: P) -> io::Result<()> {
 #[derive(Debug)]
 pub struct File {
     pub id: usize,
-    pub pos: core::cell::Cell<usize>,
+    pub pos: usize,
 }
 
 impl File {
     /// Model-only constructor.
     pub fn verif_new(id: usize) -> Self {
-        Self { id, pos: core::cell::Cell::new(0) }
+        Self { id, pos: 0 }
     }
     pub fn open<P: AsRef<Path>>(p: P) -> io::Result<File> {
         if state().fail_open {
@@ -146,7 +146,7 @@ impl std::os::unix::io::AsRawFd for File {
 impl io::Read for File {
     fn read(&mut self, out: &mut [u8]) -> io::Result<usize> {
         let f = &state().files[self.id];
-        let pos = self.pos.get();
+        let pos = self.pos;
         let avail = f.len.saturating_sub(pos);
         let n = if out.len() < avail { out.len() } else { avail };
         ghost::access(self.id, pos, n);
@@ -156,20 +156,20 @@ impl io::Read for File {
             out[i] = unsafe { *f.buf.add(pos + i) };
             i += 1;
         }
-        self.pos.set(pos + n);
+        self.pos = pos + n;
         Ok(n)
     }
 }
 impl io::Seek for File {
     fn seek(&mut self, p: io::SeekFrom) -> io::Result<u64> {
         match p {
-            io::SeekFrom::Start(o) => self.pos.set(o as usize),
-            io::SeekFrom::Current(d) => self.pos.set((self.pos.get() as i64 + d) as usize),
+            io::SeekFrom::Start(o) => self.pos = o as usize,
+            io::SeekFrom::Current(d) => self.pos = (self.pos as i64 + d) as usize,
             io::SeekFrom::End(d) => {
-                self.pos.set((state().files[self.id].len as i64 + d) as usize)
+                self.pos = (state().files[self.id].len as i64 + d) as usize
             }
         }
-        Ok(self.pos.get() as u64)
+        Ok(self.pos as u64)
     }
 }
 
